@@ -2775,9 +2775,28 @@ def check_range_guard(ctx, rule: str, fn: FuncInfo, var: str, landmarks, expecte
         ifs = [n for n in ifs if n.body and isinstance(n.body[-1], ast.Raise)]
     else:
         ifs = [n for n in ifs if not (n.body and isinstance(n.body[-1], ast.Raise))]
+        # `if <outside>: return` in front of the work is the same guard, negated
+        if len(ifs) == 1 and not ifs[0].orelse and len(ifs[0].body) == 1 and isinstance(ifs[0].body[0], ast.Return) \
+                and (ifs[0].body[0].value is None or (isinstance(ifs[0].body[0].value, ast.Constant) and ifs[0].body[0].value.value is None)):
+            expected = {k: not v for k, v in expected.items()}
+            kind = 'reject'
     if not ifs or (kind == 'accept' and len(ifs) != 1):
         ctx.error('%s: %s has %d guard(s) on `%s` (cannot tell)' % (rule, fn.qualname, len(ifs), var))
-    tables = [order_truth_table(n.test, var, landmarks) for n in ifs]
+    from .astutil import expander as _exp_rg
+    _ex_rg = _exp_rg(fn)            # a limit named in a local first (`max_cp = fft_size`) is looked through
+    lm_x = [norm(_ex_rg(ast.parse(l_, mode='eval').body)) for l_ in landmarks]
+    raw = [order_truth_table(_ex_rg(n.test), var, lm_x) for n in ifs]
+    # positions are reported under the landmark texts the caller gave
+    def _rename(t_):
+        if t_ is None:
+            return None
+        out_ = {}
+        for k_, v_ in t_.items():
+            for a_, b_ in zip(lm_x, landmarks):
+                k_ = k_.replace(a_, b_)
+            out_[k_] = v_
+        return out_
+    tables = [_rename(t_) for t_ in raw]
     if any(t is None for t in tables):
         bad = [norm(n.test)[:70] for n, t in zip(ifs, tables) if t is None]
         ctx.error('%s: the guard `%s` of %s looks at `%s` through more than comparisons with %s (cannot tell)' % (rule, bad[0], fn.qualname, var, landmarks))
@@ -2787,7 +2806,7 @@ def check_range_guard(ctx, rule: str, fn: FuncInfo, var: str, landmarks, expecte
     if diff:
         pos = sorted(diff)[0]
         ctx.violation(rule, fn.qualname, 'the guard `%s` %s `%s` %s, but %s' % (
-            ' / '.join(norm(n.test)[:60] for n in ifs), 'rejects' if (kind == 'raise') == diff[pos][0] else 'accepts', var, pos, what),
+            ' / '.join(norm(n.test)[:60] for n in ifs), 'rejects' if (kind in ('raise', 'reject')) == diff[pos][0] else 'accepts', var, pos, what),
             fn.path, ifs[0].lineno, operand='limit:' + pos.replace(' ', '-'))
 
 
